@@ -369,13 +369,15 @@ type FuncContract struct {
 	File     string
 	Line     int
 	// spec functions / lemmas
-	Params  []Param
-	RetType string
-	Body    *Clause
-	Kind    string // func | spec | lemma | interface | global
-	Methods map[string]*FuncContract // for interfaces
-	Uses    []*Clause                // lemma instantiations: use name(args)
-	Asserts []*Clause
+	Params        []Param
+	RetType       string
+	Body          *Clause
+	Kind          string                   // func | spec | lemma | interface | global
+	Methods       map[string]*FuncContract // for interfaces
+	Uses          []*Clause                // lemma instantiations: use name(args)
+	Asserts       []*Clause
+	OnCall        map[string][]*Clause // per function-valued parameter: obligation at each call (args: arg0, arg1, ...)
+	InlineCallees map[string]bool
 }
 
 type ContractSet struct {
@@ -395,7 +397,7 @@ var clauseKeywords = map[string]bool{
 	"property": true, "model": true, "requires": true, "ensures": true, "loop": true,
 	"inline": true, "trusted": true, "safety": true, "pure": true, "assigns": true,
 	"let": true, "note": true, "method": true, "body": true, "use": true, "opt": true,
-	"assert": true, "purearg": true,
+	"assert": true, "purearg": true, "oncall": true, "inlinecall": true,
 }
 
 // ParseContractFile reads one verif_contracts.go file.
@@ -688,6 +690,26 @@ func (cs *ContractSet) addClause(c *FuncContract, kw, text, file string, line in
 			ls.Decreases = cl
 		default:
 			return fmt.Errorf("unknown loop clause %q", fs[1])
+		}
+	case "oncall":
+		fs := strings.Fields(text)
+		if len(fs) < 2 {
+			return fmt.Errorf("oncall <param> <expr>")
+		}
+		cl, err := mk("oncall", strings.TrimSpace(text[len(fs[0]):]))
+		if err != nil {
+			return err
+		}
+		if c.OnCall == nil {
+			c.OnCall = map[string][]*Clause{}
+		}
+		c.OnCall[fs[0]] = append(c.OnCall[fs[0]], cl)
+	case "inlinecall":
+		if c.InlineCallees == nil {
+			c.InlineCallees = map[string]bool{}
+		}
+		for _, f := range strings.Fields(text) {
+			c.InlineCallees[normalizeFuncName(f)] = true
 		}
 	case "inline":
 		c.Inline = true
